@@ -1133,3 +1133,106 @@ def value_cases(jobs):
         out.append({"id": job["id"], "world": {"parents": valuniv.PARENTS}, "t": strip(t), "py": t["py"],
                     "companions": COMPANIONS, "steps": steps})
     return out
+
+
+# ---------------------------------------------------------------------------
+# C17: overloaded methods in classes
+# ---------------------------------------------------------------------------
+def class_cases(jobs):
+    """job = {id, world:{parents, hosts}, args:[arg class ids]}"""
+    import linecache
+
+    from ovld import OvldBase, OvldMC, call_next, extend_super, recurse
+
+    from .observe import classify, describe
+
+    out = []
+    for job in jobs:
+        w = job["world"]
+        argcls = _mk_classes(w["parents"])
+        clsid = {c: i for i, c in enumerate(argcls) if c is not None}
+        log = []
+        ns = {"LOG": log, "OvldMC": OvldMC, "OvldBase": OvldBase, "extend_super": extend_super,
+              "call_next": call_next, "recurse": recurse, "ARGS": {}, "BUDGET": [0], "__name__": "vfworld"}
+        for c in range(2, len(argcls)):
+            ns[f"K{c}"] = argcls[c]
+        ns["ARGS"] = {c: (argcls[c]() if c > 1 else object()) for c in range(1, len(argcls))}
+        hosts = w["hosts"]
+        steps = []
+        defined = {}
+        bodies = {}
+        for k, H in enumerate(hosts, start=1):
+            if any(b not in defined for b in H["bases"]):
+                break
+            bases = [f"H{b}" for b in H["bases"]]
+            if H["root"] == "base":
+                bases.append("OvldBase")
+            head = f"class H{k}({', '.join(bases + (['metaclass=OvldMC'] if H['root'] == 'meta' else []))}):"
+            lines = [head, f"    hid = {k}"]
+            for d in H["body"]:
+                bodies[d["id"]] = d
+                ann = "object" if d["t"] == 1 else f"K{d['t']}"
+                if d["marked"]:
+                    lines.append("    @extend_super")
+                lines.append(f"    def f(self, x: {ann}):")
+                lines.append(f"        _e = [{d['id']!r}, x, None, self]")
+                lines.append("        LOG.append(_e)")
+                if d["body"] == "next":
+                    lines.append("        _e[2] = ('next', x)")
+                    lines.append("        return call_next(x)")
+                elif isinstance(d["body"], dict):
+                    z = d["body"]["to"]
+                    lines.append("        if BUDGET[0] <= 0:")
+                    lines.append(f"            return {d['id']!r}")
+                    lines.append("        BUDGET[0] -= 1")
+                    lines.append(f"        _e[2] = ('recurse', ARGS[{z}])")
+                    lines.append(f"        return recurse(ARGS[{z}])")
+                else:
+                    lines.append(f"        return {d['id']!r}")
+            code = "\n".join(lines) + "\n"
+            fname = f"<vf:cls{job['id']}-{k}>"
+            linecache.cache[fname] = (len(code), None, code.splitlines(True), fname)
+            try:
+                exec(compile(code, fname, "exec"), ns, ns)
+                defined[k] = ns[f"H{k}"]
+            except BaseException as e:  # noqa
+                steps.append({"op": "defclass", "host": k, "after": k, "result": "config", "err": describe(e)})
+                e.__traceback__ = None
+                break
+            steps.append({"op": "defclass", "host": k, "after": k, "result": "ok"})
+            # probe every class defined so far
+            for j in sorted(defined):
+                cls_ = defined[j]
+                if not hasattr(cls_, "f"):
+                    continue
+                try:
+                    inst = cls_()
+                except Exception:
+                    continue
+                for a in job["args"]:
+                    del log[:]
+                    ns["BUDGET"][0] = 2
+                    obs = {"resolve": {"kind": "skip", "m": ""}, "slf": "ok"}
+                    try:
+                        inst.f(ns["ARGS"][a])
+                        obs["kind"] = "run"
+                    except BaseException as e:  # noqa
+                        obs["kind"] = classify(e)
+                        obs["err"] = describe(e)
+                        e.__traceback__ = None
+                    ent = []
+                    for mid, x, nxt, slf in log:
+                        if slf is not inst:
+                            obs["slf"] = "bad"
+                        c1 = {"pos": [{"c": clsid.get(type(x), 0)}], "kwn": [], "kwa": []}
+                        if nxt is None:
+                            nd = {"has": False, "via": "", "call": {"pos": [], "kwn": [], "kwa": []}}
+                        else:
+                            nd = {"has": True, "via": nxt[0], "call": {"pos": [{"c": clsid.get(type(nxt[1]), 0)}], "kwn": [], "kwa": []}}
+                        ent.append({"m": mid, "call": c1, "next": nd})
+                    obs["entered"] = ent
+                    steps.append({"op": "probe", "host": j, "after": k, "call": {"pos": [{"c": a}], "kwn": [], "kwa": []}, "obs": obs})
+        for kk in [kk for kk in linecache.cache if kk.startswith("<ovld:") or kk.startswith("<vf:")]:
+            del linecache.cache[kk]
+        out.append({"id": job["id"], "props": ["C17"], "world": w, "steps": steps})
+    return out
